@@ -1038,6 +1038,13 @@ func (e *retEnv) run(cs *retCase) (out retOutcome) {
 
 func (e *retEnv) runCase(r *runner.Run, cs *retCase, c *retCounters) bool {
 	out := e.run(cs)
+	for try := 0; try < 2 && out.infra == nil && out.what == "call-failed" && e.layer == "mcp-proxy"; try++ {
+		// the only verdict that real time can produce (as in the mcp-proxy part): on a loaded machine a loopback dial or
+		// the MCP client's own timeout may fail although nothing is wrong. A refusal made by the code repeats, a hiccup
+		// does not; every run builds its own population, so a re-run is the same case.
+		r.Add("retention_mcp-proxy_transient_call_failures", 1)
+		out = e.run(cs)
+	}
 	if out.infra != nil {
 		r.Infra("c14 retention (%s/%s): population %v, %s, %s: %v", e.layer, e.backend, retDesc(cs.ks, cs.pop), cs.op, cs.scen, out.infra)
 		return false
